@@ -45,8 +45,17 @@ pub const PROPS: &[PropInfo] = &[
         rule: "one case = one history followed by plan-variant families of the same logical query (index scan vs predicate no index serves; point vs range form); non-trivial = the variants of at least one family used different physical operators according to EXPLAIN; distinct = distinct fingerprints" },
 ];
 
+pub const CRASH_PROPS: &[PropInfo] = &[
+    PropInfo { id: "C01", engine: Engine::Crash, level: "fault_enumeration", quick_runs: 160, thorough_runs: 6000, watchdog_s: 60,
+        rule: "one case = one history (DDL, autocommit statements, multi-statement sessions, batches, checkpoints, reopen) run with the I/O tap on, then EVERY prefix of its recorded file mutations rebuilt as an on-disk image, recovered with Database::open and judged against the acknowledged state; evaluations counts histories, coverage.crash_points counts images; non-trivial = the history had at least one crash point after an acknowledged commit; distinct = distinct fingerprints of (logical event log, I/O sequence)" },
+    PropInfo { id: "C02", engine: Engine::Crash, level: "fault_enumeration", quick_runs: 160, thorough_runs: 6000, watchdog_s: 60,
+        rule: "as C01, with a mix forcing transactions that are open, rolled back, dropped or failed at the crash point and small caches; non-trivial = at least one crash point fell while a transaction was open or after one was rolled back; distinct = distinct fingerprints of (logical event log, I/O sequence)" },
+    PropInfo { id: "C08", engine: Engine::Crash, level: "fault_enumeration", quick_runs: 48, thorough_runs: 2000, watchdog_s: 90,
+        rule: "one case = one history; for every I/O prefix: open must succeed, a smoke transaction must work, close+open must change nothing, and for up to 24 prefixes of the recovery's own I/O (nested, depth 2) the restarted recovery must yield the same contents; non-trivial = at least one nested crash point was evaluated; distinct = distinct fingerprints" },
+];
+
 pub fn prop(id: &str) -> Option<&'static PropInfo> {
-    PROPS.iter().find(|p| p.id == id)
+    PROPS.iter().chain(CRASH_PROPS.iter()).find(|p| p.id == id)
 }
 
 /// Swarm: every run of a property draws its own workload mix.
@@ -100,6 +109,27 @@ pub fn profile_for(id: &str, rng: &mut Rng) -> Profile {
         }
         "C16" => {
             p.w_failing = 25;
+        }
+        "C01" | "C02" | "C08" => {
+            p.min_events = 4;
+            p.max_events = rng.range(6, if id == "C08" { 14 } else { 24 }) as u32;
+            p.w_flush = *rng.pick(&[0, 4, 10]);
+            p.w_reopen = *rng.pick(&[0, 0, 4]);
+            p.w_check = 0;
+            p.max_sessions = 2;
+            p.guards.push("uncheckpointed_create_with_open_txn".into()); // D3
+            p.guards.push("checkpoint_with_open_txn".into()); // F4
+            if id == "C08" {
+                p.guards.push("crash_after_recovery_truncated_log".into()); // F6 (fault-space guard)
+            }
+            p.guards.push("drop_table_before_crash".into()); // D6c
+            p.guards.push("delete_of_own_insert_in_open_txn".into()); // F5
+            p.guards.push("crash_inside_checkpoint_page_writes".into()); // D22b (fault-space guard)
+            if id == "C02" {
+                p.p_rollback = rng.range(40, 70) as u32;
+                p.w_session = 70;
+                p.w_failing = 8;
+            }
         }
         _ => {}
     }
